@@ -925,7 +925,8 @@ def c12_tiebreak_retry_timer(ctx):
         if new is None:
             q.fail.append(("after a tiebreak (which may postpone the probe by one second) no wake-up is requested for the new next_send", f"path {i}: next_send is not even read after the call"))
             continue
-        olds = [v for v in z3_vars(z3.And(*p.cond)) if v.size() == 64 and v.get_id() != new.e.get_id()] if p.cond else []
+        olds = [v for v in z3_vars(z3.And(*p.cond)) if v.size() == 64 and v.get_id() != new.e.get_id()
+                and str(v).startswith("obj")] if p.cond else []
         if len(olds) != 1:
             q.fail.append(("after a tiebreak no wake-up is requested and the path does not compare next_send with its old value", f"path {i}"))
             continue
